@@ -305,7 +305,7 @@ func TestC14_CloseRefundsOnce(t *testing.T) {
 	closes, richCloses, afterClose := 0, 0, 0
 	caseReset["C14"] = func() { closes, richCloses, afterClose = 0, 0, 0 }
 	ops := []string{"newAlloc2", "newAlloc2", "upload", "upload", "upload", "delete", "challenge", "challenge", "respond", "respond", "writeLock", "writeLock", "readRedeem2",
-		"extend2", "extend2", "replaceBlobber", "cancel", "cancel", "cancel", "finalize", "finalize", "finalize", "kill", "stake", "collect", "advance", "advance", "freeAlloc", "addAssigner"}
+		"extend2", "extend2", "replaceBlobber", "cancel", "cancel", "cancel", "finalize", "finalize", "finalize", "kill", "stake", "collect", "advance", "advance", "freeAlloc", "addAssigner", "fillAlloc", "fillAlloc", "fillAlloc", "storageSettings", "replaceChallenged", "advance"}
 	runMachineOps(t, "C14", ops, "generated storage histories biased to closing: allocations (incl. free-storage ones) receive uploads, challenges, write pool locks and updates and are then cancelled / finalized by the owner, one of their blobbers or a stranger, before and after expiry, repeatedly, followed by locks, markers, updates and closes naming the closed allocation; oracle: a close succeeds only for an open allocation, cancel only by the owner not after expiry, finalize only by the owner or one of its blobbers not before expiry; on a successful close the owner's balance grows by exactly what leaves the contract wallet, that refund is at least write pool - min(write pool, cancellation charge) and, together with all reward increments of stake pools, at most write pool + challenge pool; reward increments of the allocation's blobbers are at most challenge pool + min(write pool, cancellation charge); allocation and challenge pool nodes are gone; any later transaction naming the closed allocation fails and moves no balance; non-trivial = close with non-zero challenge pool and non-zero write pool; distinct by history", 40, 90,
 		func(m *machine, txn *transaction.Transaction, o sim.Outcome, before *snapshot) error {
 			c := m.cur
@@ -430,6 +430,9 @@ func TestC14_CloseRefundsOnce(t *testing.T) {
 			}
 			if fn == "cancel_allocation" && cp > 0 && earned < cp {
 				st.Class("cancel-with-unearned-challenge-pool")
+				if cp > charge {
+					st.Class("cancel-with-unearned-challenge-pool-above-the-charge")
+				}
 			}
 			if _, still := ns.allocs[c.alloc.id]; still {
 				return fmt.Errorf("%s", m.viol("allocation-node-left", "%s of %s succeeded but the allocation node is still there", fn, c.alloc.id[:8]))
